@@ -7,10 +7,15 @@ import (
 type tagImportNode struct {
 	position *Token
 	filename string
+	template *Template                // the template the macros are imported from
 	macros   map[string]*tagMacroNode // alias/name -> macro instance
 }
 
 func (node *tagImportNode) Execute(ctx *ExecutionContext, writer TemplateWriter) *Error {
+	// The imported template is never executed itself; its options (TrimBlocks,
+	// LStripBlocks) must be applied all the same before its macros are used.
+	node.template.applyOptions()
+
 	for name, macro := range node.macros {
 		func(name string, macro *tagMacroNode) {
 			ctx.Private[name] = func(args ...*Value) (*Value, error) {
@@ -43,6 +48,7 @@ func tagImportParser(doc *Parser, start *Token, arguments *Parser) (INodeTag, *E
 	if err != nil {
 		return nil, err.(*Error).updateFromTokenIfNeeded(doc.template, start)
 	}
+	importNode.template = tpl
 
 	for arguments.Remaining() > 0 {
 		macroNameToken := arguments.MatchType(TokenIdentifier)
